@@ -72,6 +72,10 @@ class Script:
         self.i += 1
         if o == "o":
             return
+        if o == "O":
+            # answered, but slower than the keep-alive interval (virtual time)
+            await asyncio.sleep(45)
+            return
         if o == "f":
             # failures come in the exception classes real senders raise (a timeout is an
             # OSError on Python >= 3.11); the loop must treat them all alike
@@ -131,7 +135,7 @@ async def run_mrp(protocol_mod, sc):
     return sc
 
 
-async def run_ap2(protocol_mod, sc, late=False):
+async def run_ap2(protocol_mod, sc, late=False, holder=None):
     """AP2Session.start_keep_alive: failure -> connection_lost, cancel -> connection_closed."""
     from pyatv.protocols.airplay import ap2_session
     from pyatv.support.state_producer import StateProducer
@@ -163,7 +167,12 @@ async def run_ap2(protocol_mod, sc, late=False):
         producer.listener = old
     else:
         producer.listener = lst
-    sess = ap2_session.AP2Session("127.0.0.1", 7000, None, None)
+    if holder is not None and "sess" in holder:
+        sess = holder["sess"]        # second use of the same session object
+    else:
+        sess = ap2_session.AP2Session("127.0.0.1", 7000, None, None)
+        if holder is not None:
+            holder["sess"] = sess
     sess.rtsp = Rtsp()
     sess.start_keep_alive(producer)
     if late:
@@ -281,31 +290,86 @@ def scripts(maxlen):
 
 
 def execute(protocol_mod, cases):
-    """Run every (variant, retries, script) on the real code; returns observed events."""
-    current = {}
+    """Run every (variant, retries, script) on the real code under virtual time; returns
+    observed events.  `script` may be a pair for the variants that run two loops."""
+    from harness.core import vloop
+
+    by_task = {}
 
     async def fake_sleep(interval, *a, **k):
-        return await current["sc"].sleep(interval)
+        sc = by_task.get(asyncio.current_task())
+        if sc is None:   # not one of the loops under test
+            return await asyncio.sleep(interval)
+        return await sc.sleep(interval)
+
+    async def as_task(coro_fn, sc, *args):
+        by_task[asyncio.current_task()] = sc
+        await coro_fn(*args)
 
     orig = protocol_mod.asyncio
     protocol_mod.asyncio = _AsyncioShim(fake_sleep)
+    orig_ensure = asyncio.ensure_future
     results = []
-    loop = asyncio.new_event_loop()
+    loop = vloop.VirtualLoop()
+    asyncio.set_event_loop(loop)
+
+    def ensure_future_tagged(coro, *a, **k):
+        # tasks created by the code under test inherit the script of their creator
+        t = orig_ensure(coro, *a, **k)
+        cur = None
+        try:
+            cur = asyncio.current_task()
+        except RuntimeError:
+            pass
+        if cur in by_task:
+            by_task[t] = by_task[cur]
+        return t
+
+    asyncio.ensure_future = ensure_future_tagged
     try:
         for variant, r, s in cases:
-            sc = current["sc"] = Script(s)
+            by_task.clear()
+            if variant == "pair":
+                # two keep-alive loops alive at once with the same name: each must follow
+                # its own script
+                scs = [Script(s[0]), Script(s[1])]
+
+                async def both():
+                    t1 = orig_ensure(as_task(run_plain, scs[0], protocol_mod, r, scs[0]))
+                    t2 = orig_ensure(as_task(run_plain, scs[1], protocol_mod, r, scs[1]))
+                    await asyncio.gather(t1, t2)
+
+                loop.run_until_complete(both())
+                results.append((variant, r, s, [scs[0].events, scs[1].events], [scs[0].i, scs[1].i]))
+                continue
+            if variant == "ap2x2":
+                # the same AP2Session object used for two keep-alive rounds
+                scs = [Script(s[0]), Script(s[1])]
+                holder = {}
+
+                async def twice():
+                    for sc in scs:
+                        by_task[asyncio.current_task()] = sc
+                        await run_ap2(protocol_mod, sc, holder=holder)
+
+                loop.run_until_complete(orig_ensure(twice()))
+                results.append((variant, r, s, [scs[0].events, scs[1].events], [scs[0].i, scs[1].i]))
+                continue
+            sc = Script(s)
             if variant == "plain":
-                coro = run_plain(protocol_mod, r, sc)
+                coro = as_task(run_plain, sc, protocol_mod, r, sc)
             elif variant == "mrp":
-                coro = run_mrp(protocol_mod, sc)
+                coro = as_task(run_mrp, sc, protocol_mod, sc)
             elif variant == "ap2late":
-                coro = run_ap2(protocol_mod, sc, late=True)
+                coro = as_task(lambda pm, x: run_ap2(pm, x, late=True), sc, protocol_mod, sc)
             else:
-                coro = run_ap2(protocol_mod, sc)
-            loop.run_until_complete(coro)
+                coro = as_task(run_ap2, sc, protocol_mod, sc)
+            loop.run_until_complete(orig_ensure(coro))
             results.append((variant, r, s, sc.events, sc.i))
     finally:
+        asyncio.ensure_future = orig_ensure
         protocol_mod.asyncio = orig
+        asyncio.set_event_loop(None)
         loop.close()
     return results
 
@@ -341,11 +405,39 @@ def run(ctx, only=None):
         cases.append(("mrp", default_r, s))
         cases.append(("ap2", default_r, s))
         cases.append(("ap2late", default_r, s))
+    # answered-but-slow keep-alives ('O': success after more than the interval)
+    slow_len = ctx.scale(5, 6)
+    for r in (0, 1, 2):
+        for s in scripts(slow_len):
+            if "o" in s:
+                cases.append(("plain", r, s.replace("o", "O", 1)))
+                cases.append(("plain", r, s.replace("o", "O")))
+    for s in scripts(4):
+        if "o" in s:
+            cases.append(("ap2", default_r, s.replace("o", "O")))
+            cases.append(("mrp", default_r, s.replace("o", "O", 1)))
+    # two loops alive at once with the same name; the same AP2Session used twice
+    pair_pool = [s for s in scripts(4)]
+    rng = ctx.rng.fork("pairs")
+    for r in (0, 1, 2):
+        for _ in range(ctx.scale(120, 800)):
+            cases.append(("pair", r, (rng.choice(pair_pool), rng.choice(pair_pool))))
+    for _ in range(ctx.scale(120, 800)):
+        cases.append(("ap2x2", default_r, (rng.choice(pair_pool), rng.choice(pair_pool))))
     ctx.exhaustive = True
     if only is not None:
-        cases = only
+        cases = [tuple(c[:2]) + (tuple(c[2]) if isinstance(c[2], list) else c[2],) for c in only]
 
     results = execute(protocol_mod, cases)
+    # flatten the two-loop variants: each loop is judged on its own script
+    flat = []
+    for (variant, r, s, events, consumed) in results:
+        if variant in ("pair", "ap2x2"):
+            for k in (0, 1):
+                flat.append((variant + ":" + str(k), r, s[k], events[k], consumed[k], s))
+        else:
+            flat.append((variant, r, s, events, consumed, s))
+    results = flat
 
     real_len = ctx.scale(5, 6)
     # every real-MRP script ends with a stop (in flight) unless it already contains one:
@@ -380,24 +472,26 @@ def run(ctx, only=None):
             ctx.fail("mrp-real:failure-reported-twice", {"variant": "mrp-real", "retries": default_r, "script": sc},
                      f"connection.close() called {n_closes} times", "at most once", "dead connection reported more than once")
 
-    answers = ctx.lean([f"run {r} {s or '-'}" for (_v, r, s, _e, _i) in results])
-    for (variant, r, s, events, consumed), ans in zip(results, answers):
+    answers = ctx.lean([f"run {r} {s.replace('O', 'o') or '-'}" for (_v, r, s, _e, _i, _w) in results])
+    for (variant, r, s, events, consumed, whole), ans in zip(results, answers):
+        base = variant.split(":")[0]
         ctx.note("variant:" + variant)
         ctx.note("len:%d" % len(s))
         term = next((ch for ch in s if ch in "sc"), None)
         nontrivial = ("failure" in events or "finish" in events) and len(events) > 2
-        ctx.case([variant, r, s], nontrivial, sample={"variant": variant, "retries": r, "script": s, "events": events})
+        ctx.case([variant, r, s, whole if base in ("pair", "ap2x2") else ""], nontrivial, sample={"variant": variant, "retries": r, "script": s, "events": events})
         ctx.note("end:" + (events[-1] if events and events[-1] in ("failure", "finish") else "running"))
         model_iter, model_events = ans.split(" ")
         model_events = [] if model_events == "-" else model_events.split(",")
         if variant == "mrp":
             model_events = [e for e in model_events if e != "finish"]  # MRP has no finish callback
         impl = f"{consumed} {','.join(events) or '-'}"
+        case = {"variant": base, "retries": r, "script": whole if base in ("pair", "ap2x2") else s}
         if model_events != events or int(model_iter) != consumed:
-            ctx.disagree({"variant": variant, "retries": r, "script": s}, impl, ans, where="heartbeater events")
+            ctx.disagree(dict(case, loop=variant, own_script=s), impl, ans, where="heartbeater events")
         ctx.validated()
-        for what in oracle(r, s, events, variant):
-            ctx.fail(f"{variant}:{what.split(' ')[0]}", {"variant": variant, "retries": r, "script": s},
+        for what in oracle(r, s.replace("O", "o"), events, "mrp" if variant == "mrp" else "plain"):
+            ctx.fail(f"{base}:{what.split(' ')[0]}", dict(case, loop=variant, own_script=s),
                      events, "see property C19", what)
 
 
